@@ -23,8 +23,8 @@ PROBES = ('alias_shared_by_3', 'pub_and_priv_both_loaded', 'batch_failed_at_k>0'
           'same_key_loaded_twice', 'unload_with_shared_alias', 'select_by_signature', 'select_by_message',
           'load_from_path', 'load_concat_blob')
 
-NAMES = ['Alice', 'Bob', 'Carol Danvers']
-COMMENTS = ['', 'work', 'home']
+NAMES = ['Alice', 'Bob', 'Carol Danvers', 'Ada Bee', 'Abe']          # the last two are spelt with hex digits only
+COMMENTS = ['', 'work', 'home', 'bad cafe']
 EMAILS = ['', 'a@example.org', 'shared@example.org', 'b@example.org']
 
 
